@@ -1,6 +1,6 @@
 (* Correspondence entry point: one op name + arguments -> canonical observation.
    Extracted to OCaml (Extract.v) and driven by ocaml/driver.ml. *)
-From Ufw Require Import Base.Val Base.Bits Model.Crc.
+From Ufw Require Import Base.Val Base.Bits Base.Errno Model.Crc Model.ByteBuffer.
 Local Open Scope string_scope.
 Local Open Scope N_scope.
 
@@ -13,8 +13,59 @@ Definition run_crc (op : string) (a : list val) : list val :=
     [VN (spec_crc (argN 0 a) (List.concat (map host_bytes16 (argLN 1 a))))]
   else [VS "unknown-op"].
 
+(* ---------------- shared helpers ---------------- *)
+Definition verr (e : option errno) : val :=
+  match e with None => VN 0 | Some e => VS (ename e) end.
+(* deterministic caller data used by both drivers: octet i of a block with seed s *)
+Definition gen_octet (s i : N) : N := (s * 31 + i * 7 + 1) mod 256.
+Definition gen_octets (s : N) (k : nat) : list N := map (fun i => gen_octet s (N.of_nat i)) (seq 0 k).
+Fixpoint quads (l : list N) : list (N * N * N * N) :=
+  match l with a :: b :: c :: d :: r => (a, b, c, d) :: quads r | _ => [] end.
+
+(* ---------------- byte buffer (C18) ---------------- *)
+Definition bb_decode (q : N * N * N * N) : bbop :=
+  let '(code, a, b, c) := q in
+  match code with
+  | 0 => OpAdd (gen_octets b (N.to_nat (N.min a 512))) a
+  | 1 => OpConsume a
+  | 2 => OpConsumeAtMost a
+  | 3 => OpRewind | 4 => OpClear | 5 => OpReset | 6 => OpRepeat
+  | 7 => OpSet true a b c
+  | _ => OpSet false a b c
+  end.
+
+Definition bb_obs (b : bbuf) (o : bbout) : list val :=
+  (match o with
+   | OutRc e => [verr e; VH []]
+   | OutData e d => [verr e; VH d]
+   | OutCount e d => [match e with None => VN (N.of_nat (length d)) | Some e => VS (ename e) end; VH d]
+   | OutVoid => [VS "void"; VH []]
+   end) ++ [VN (bb_size b); VN (bb_used b); VN (bb_offset b); VH (bb_mem b)].
+
+Fixpoint bb_run (b : bbuf) (ops : list bbop) : list val :=
+  match ops with
+  | [] => []
+  | o :: r => let '(b', out) := bb_step b o in bb_obs b' out ++ bb_run b' r
+  end.
+
+(* a set whose size exceeds the arena is outside the harness' domain *)
+Definition bb_op_ok (arena : N) (o : bbop) : bool :=
+  match o with OpSet _ size _ _ => size <=? arena | _ => true end.
+
+Definition run_bb (op : string) (a : list val) : list val :=
+  if String.eqb op "bb.hist" then
+    let mem := argH 0 a in
+    let ops := map bb_decode (quads (argLN 4 a)) in
+    if negb (forallb (bb_op_ok (N.of_nat (length mem))) ops) || negb (argN 1 a <=? N.of_nat (length mem)) then [VS "skip"] else
+    match bb_set true mem (argN 1 a) (argN 2 a) (argN 3 a) with
+    | None => [VS "EINVAL"]
+    | Some b => VN 0 :: bb_run b ops
+    end
+  else [VS "unknown-op"].
+
 Definition prefix_of (p s : string) : bool := String.prefix p s.
 
 Definition dispatch (op : string) (a : list val) : list val :=
   if prefix_of "crc." op then run_crc op a
+  else if prefix_of "bb." op then run_bb op a
   else [VS "unknown-op"].
